@@ -215,7 +215,7 @@ type fsweepRound[T any] struct {
 }
 
 func futureSweep(r *vkit.Report) {
-	n := scale4(r, 14, 40, 42, 96) // batches
+	n := scale4(r, 14, 24, 42, 96) // batches
 	if runtime.GOMAXPROCS(0) < 4 {
 		n = (n + 9) / 10
 	}
